@@ -91,6 +91,9 @@ class AlgorandMnemonicDecoder(MnemonicDecoderBase):
         entropy_list = AlgorandMnemonicUtils.ConvertBits(word_indexes[:-1], 11, 8)
         # Cannot be None if the number of words is valid (checked at the beginning)
         assert entropy_list is not None
+        # The 24 words carry 264 bits: the 8 bits beyond the 256-bit entropy shall be zero
+        if entropy_list[-1] != 0:
+            raise ValueError("Invalid mnemonic (the unused bits of the last entropy word are not zero)")
         # Get back entropy bytes
         entropy_bytes = BytesUtils.FromList(entropy_list)[:-1]
 
